@@ -186,4 +186,6 @@ def rule_delimiters(ctx):
                       'write_next no longer consults include_%s' % kind, loc=it.loc())
 
 
-RULES = [rule_delimiters, rule_k6, rule_selection, rule_select_resource]
+from props.C22 import rule_json_str  # noqa: E402  (free-text values are made safe by json_str: its escaper is part of C21 too)
+
+RULES = [rule_delimiters, rule_k6, rule_selection, rule_select_resource, rule_json_str]
